@@ -92,7 +92,7 @@ func CondWaitOn(obj any, c *sync.Cond, field string) {
 			}
 			if freeSince.IsZero() {
 				freeSince = time.Now()
-			} else if time.Since(freeSince) > 3*time.Second {
+			} else if time.Since(freeSince) > 40*time.Millisecond {
 				runtime.Goexit() // abandoned logical thread of a case that hit its cap
 			}
 			time.Sleep(50 * time.Microsecond)
